@@ -51,6 +51,19 @@ func (e *Engine) intercept(fn *ssa.Function) interceptFn {
 	return ic
 }
 
+func init() {
+	// binary.Write of an EMPTY slice leaves its fast path and goes through reflection (which
+	// the engine does not execute): it writes nothing. Everything else runs the real body.
+	reg(func(r *Run, fr *frame, args []Value) Value {
+		if iv, ok := args[2].(Iface); ok {
+			if sl, ok := iv.V.(Slice); ok && len(sl) == 0 {
+				return Iface{}
+			}
+		}
+		return useRealBody{}
+	}, "encoding/binary.Write")
+}
+
 var prefixNoop = []string{
 	"log.", "(*log.Logger).",
 	"github.com/davecgh/go-spew/spew.",
@@ -169,11 +182,28 @@ func init() {
 		r.realBacked[t.name] = true
 		return t
 	}
+	// concrete operands were computed in float64, like the native run: compare them as the
+	// native API does (up to rounding); symbolic operands are exact reals
+	tol := func(a, b float64) float64 {
+		m := math.Abs(a)
+		if math.Abs(b) > m {
+			m = math.Abs(b)
+		}
+		return 1e-9 * (1 + m)
+	}
 	harnessAPI["vRealEq"] = func(r *Run, fr *frame, args []Value) Value {
-		return r.floatCmp(fr, token.EQL, args[0].(Float), args[1].(Float))
+		a, b := args[0].(Float), args[1].(Float)
+		if a.concrete() && b.concrete() {
+			return r.tt.Bool(math.Abs(a.v-b.v) <= tol(a.v, b.v))
+		}
+		return r.floatCmp(fr, token.EQL, a, b)
 	}
 	harnessAPI["vRealLe"] = func(r *Run, fr *frame, args []Value) Value {
-		return r.floatCmp(fr, token.LEQ, args[0].(Float), args[1].(Float))
+		a, b := args[0].(Float), args[1].(Float)
+		if a.concrete() && b.concrete() {
+			return r.tt.Bool(a.v <= b.v+tol(a.v, b.v))
+		}
+		return r.floatCmp(fr, token.LEQ, a, b)
 	}
 	harnessAPI["vSettle"] = func(r *Run, fr *frame, args []Value) Value {
 		g := fr.g
